@@ -89,6 +89,14 @@ func fileCases(r *mon.Run) []fileCase {
 	if !r.Quick() {
 		add(256, "size-1", 256*256+1, "rand", "wide")
 	}
+	// tall narrow trees: width 2 beyond 2^14 chunks (16 and more levels)
+	add(2, "size-1", 1<<14, "rand", "tall")
+	add(2, "size-1", 1<<14+1, "rand", "tall")
+	add(2, "size-1", 1<<15+3, "rand", "tall")
+	if !r.Quick() {
+		add(2, "size-1", 1<<17+1, "rand", "tall")
+		add(3, "size-1", 59049+1, "rand", "tall")
+	}
 	// "never nest": link widths far beyond any file (up to the largest int)
 	for _, w := range []int{1 << 31, 1 << 40, math.MaxInt - 1, math.MaxInt} {
 		for _, n := range []int{0, 1, 2, 9} {
